@@ -86,7 +86,8 @@ end TTV.Generated.Stream
 # ---------------------------------------------------------------------------------------------- vocabularies
 T0 = datetime.datetime(2000, 1, 1, tzinfo=datetime.timezone.utc)
 #: file names: token 0 and 1 are the two names the converters treat specially
-NAMES = ['reason', 'traceback', 'log', 'nämé ☃', 'stdout']
+#: token 5 is the empty file name (falsy but a legal key)
+NAMES = ['reason', 'traceback', 'log', 'nämé ☃', 'stdout', '']
 #: content-type tokens -> (type, subtype, parameters); token 0 is the default of `_make_content_type(None)`
 CTS = [('application', 'octet-stream', {}), ('text', 'plain', {'charset': 'utf8'}),
        ('text', 'x-thing', {'charset': 'utf8', 'k': 'v 1;2'}), ('image', 'png', {}), ('text', 'plain', {'charset': 'latin-1'}),
@@ -95,15 +96,21 @@ CTS = [('application', 'octet-stream', {}), ('text', 'plain', {'charset': 'utf8'
        ('application', 'x-quoted', {'title': 'the "big" log'}), ('application', 'x-backslash', {'k': 'a\\b\\'}),
        ('application', 'x-seps', {'k': '; , = /', 'l': ''}), ('text', 'plain', {'charset': 'utf8', 'note': '\u00e9 \u4e2d'}),
        # a comma inside a parameter that is not the charset, with and without a charset next to it
-       ('text', 'csv', {'charset': 'utf8', 'columns': 'id,name,size'}), ('application', 'x-log', {'fields': 'time,level,msg'})]
+       ('text', 'csv', {'charset': 'utf8', 'columns': 'id,name,size'}), ('application', 'x-log', {'fields': 'time,level,msg'}),
+       # tokens 12 and 13 differ from 2 and 11 only in the letter case of a parameter VALUE (values are case-sensitive): another type
+       ('text', 'x-thing', {'charset': 'utf8', 'k': 'V 1;2'}), ('application', 'x-log', {'fields': 'Time,Level,MSG'})]
+
+
+#: test id token 3 is the empty string (falsy but a legal id, distinct from None)
+EMPTY_ID = 3
 
 
 def test_id(n):
-    return 't%d' % n
+    return '' if n == EMPTY_ID else 't%d' % n
 
 
 def un_test_id(s):
-    return int(s[1:])
+    return EMPTY_ID if s == '' else int(s[1:])
 
 
 def tag(n):
